@@ -3,6 +3,9 @@ package main
 import (
 	"fmt"
 	"go/types"
+	"regexp"
+	"sort"
+	"strings"
 )
 
 // Environment stubs: randomness (tagged by source) and the clock.  Values are fresh symbolic constants that
@@ -147,5 +150,75 @@ func init() {
 		}
 		// time.Time{wall: nsec (no monotonic bit), ext: seconds since year 1, loc: nil (UTC)}
 		return Struct{ZExt(Extract(31, 0, ns), 64), Add(sec, BV(64, unixToInternal)), (*Value)(nil)}
+	}
+}
+
+// ---- provenance of values: which environment sources does a term (syntactically) depend on?
+var srcRe = regexp.MustCompile(`env_([a-z]+)_\d+_w\d+|in_\d+_w\d+|\bt\d+\b`)
+
+func termSources(t Term, seen map[string]bool, out map[string]bool) {
+	if t.IsConst() {
+		return
+	}
+	var walk func(expr string)
+	walk = func(expr string) {
+		for _, m := range srcRe.FindAllStringSubmatch(expr, -1) {
+			tok := m[0]
+			switch {
+			case strings.HasPrefix(tok, "env_"):
+				out[m[1]] = true
+			case strings.HasPrefix(tok, "in_"):
+				out["input"] = true
+			default: // a named definition tN
+				if seen[tok] {
+					continue
+				}
+				seen[tok] = true
+				if body, ok := defBodies[tok]; ok {
+					walk(body)
+				}
+			}
+		}
+	}
+	walk(t.E)
+}
+
+func init() {
+	rtIntrinsics["Sources"] = func(e *Engine, fr *frame, a []Value) Value {
+		out := map[string]bool{}
+		seen := map[string]bool{}
+		for _, t := range sliceTerms(a[0]) {
+			termSources(t, seen, out)
+		}
+		var keys []string
+		for k := range out {
+			keys = append(keys, k)
+		}
+		sort.Strings(keys)
+		return strings.Join(keys, ",")
+	}
+	rtIntrinsics["Reseeded"] = func(e *Engine, fr *frame, a []Value) Value {
+		r, _ := e.pathData["reseeded"].(bool)
+		return Bool(r)
+	}
+	// NonConstant: the solver finds two different values for the byte string under the path condition
+	rtIntrinsics["NonConstant"] = func(e *Engine, fr *frame, a []Value) Value {
+		ts := sliceTerms(a[0])
+		if len(ts) == 0 {
+			return Bool(false)
+		}
+		t := ConcatBytes(ts)
+		if t.IsConst() {
+			return Bool(false)
+		}
+		if e.solver.Check() != "sat" {
+			return Bool(false)
+		}
+		vs, err := e.solver.GetValues([]Term{t})
+		if err != nil {
+			return Bool(false)
+		}
+		v := BVb(t.W, parseModelBig(vs[0]))
+		return Bool(e.solver.CheckWith(Not(Eq(t, v))) == "sat")
 	}
 }
